@@ -119,6 +119,7 @@ func childMatch(arg string) {
 func runChild(mode, cwd string, arg any) childResult {
 	cmd := exec.Command(os.Args[0], mode, mustJSON(arg))
 	cmd.Dir = cwd
+	cmd.Env = append(os.Environ(), "PWD="+cwd)
 	var so, se bytes.Buffer
 	cmd.Stdout, cmd.Stderr = &so, &se
 	err := cmd.Run()
@@ -349,7 +350,9 @@ func (w *world) verifyAll(signed, final, links string) {
 func (w *world) verifyOne(i int, sc scenario, signed, final, links string) {
 	cfg := w.cfg
 	base := filepath.Join(w.root, fmt.Sprintf("v%02d", i))
-	linkCopy := filepath.Join(base, "links")
+	// stage: the (possibly tampered) files, once; then one private copy per side
+	stage := filepath.Join(base, "stage")
+	linkCopy := filepath.Join(stage, "links")
 	copyDir(links, linkCopy)
 	if sc.mutLinks != nil {
 		sc.mutLinks(linkCopy)
@@ -358,12 +361,19 @@ func (w *world) verifyOne(i int, sc scenario, signed, final, links string) {
 	if sc.layout != "" {
 		layoutSrc = sc.layout
 	}
-	layoutCopy := filepath.Join(base, "root.layout")
+	layoutCopy := filepath.Join(stage, "root.layout")
 	copyFile(layoutSrc, layoutCopy)
 	if sc.mutLayout != nil {
 		sc.mutLayout(layoutCopy)
 	}
-	os.MkdirAll(filepath.Join(base, "empty"), 0o755)
+	prodCopy := filepath.Join(stage, "products")
+	copyDir(final, prodCopy)
+	if sc.mutProd != nil {
+		sc.mutProd(prodCopy)
+	}
+	if cfg.LinksInCwd {
+		copyDir(linkCopy, prodCopy)
+	}
 	keys := sc.keys
 	if keys == nil {
 		keys = w.signerPubs()
@@ -383,55 +393,84 @@ func (w *world) verifyOne(i int, sc scenario, signed, final, links string) {
 	}
 	norm := cfg.Norm && !sc.noNorm
 
-	// same files for the binary and for the library, each in its own directory
-	dirs := map[string]string{"cli": filepath.Join(base, "cli"), "lib": filepath.Join(base, "lib")}
-	for _, d := range dirs {
-		copyDir(final, d)
-		if sc.mutProd != nil {
-			sc.mutProd(d)
+	wd := orDefault(cfg.WdName, "wd")
+	ld := orDefault(cfg.LinkDirName, "links")
+	ln := orDefault(cfg.LayoutName, "root.layout")
+	slash := ""
+	if cfg.TrailingSlash {
+		slash = "/"
+	}
+	// same files for the binary and for the library, each in its own tree of the same shape:
+	//   <parent>/<wd> (working directory: the products), <parent>/<ld> (links), <parent>/<ln> (layout);
+	// with SymlinkCwd the working directory is entered through <side>/<wd> -> <side>/store/deep/<wd>,
+	// so that a relative `..` is <side>/store/deep for the kernel and <side> for a lexical reading of $PWD
+	type sideT struct{ cwd, layoutArg, linkArg string }
+	sides := map[string]sideT{}
+	for _, name := range []string{"cli", "lib"} {
+		sideRoot := filepath.Join(base, name)
+		parent := sideRoot
+		if cfg.SymlinkCwd {
+			parent = filepath.Join(sideRoot, "store", "deep")
 		}
-		if cfg.LinksInCwd {
-			copyDir(linkCopy, d)
+		copyDir(prodCopy, filepath.Join(parent, wd))
+		copyDir(linkCopy, filepath.Join(parent, ld))
+		copyFile(layoutCopy, filepath.Join(parent, ln))
+		os.MkdirAll(filepath.Join(parent, "empty"), 0o755)
+		cwd := filepath.Join(parent, wd)
+		if cfg.SymlinkCwd {
+			cwd = filepath.Join(sideRoot, wd)
+			if err := os.Symlink(filepath.Join(parent, wd), cwd); err != nil {
+				panic(err)
+			}
 		}
-	}
-	layoutArg := "../root.layout"
-	linkArg := "../links"
-	if cfg.AbsPaths {
-		layoutArg = layoutCopy
-		linkArg = linkCopy
-	}
-	switch sc.linkDirOverride {
-	case "missing":
-		linkArg = "../no-such-dir"
-	case "empty":
-		linkArg = "../empty"
-	}
-	if cfg.LinksInCwd && sc.linkDirOverride == "" {
-		linkArg = ""
-	}
-	argv := []string{"verify", "-l", layoutArg}
-	if sc.keySep {
-		for _, k := range keys {
-			argv = append(argv, "-k", k)
+		s := sideT{cwd: cwd, layoutArg: "../" + ln, linkArg: "../" + ld + slash}
+		if cfg.AbsPaths {
+			s.layoutArg = filepath.Join(parent, ln)
+			s.linkArg = filepath.Join(parent, ld) + slash
 		}
-	} else {
-		argv = append(argv, "--layout-keys", strings.Join(keys, ","))
+		switch sc.linkDirOverride {
+		case "missing":
+			s.linkArg = "../no-such-dir"
+		case "empty":
+			s.linkArg = "../empty" + slash
+		}
+		if cfg.LinksInCwd && sc.linkDirOverride == "" {
+			s.linkArg = ""
+		}
+		sides[name] = s
 	}
-	if linkArg != "" {
-		argv = append(argv, "--link-dir", linkArg)
+	mkArgv := func(s sideT) []string {
+		argv := []string{"verify", "-l", s.layoutArg}
+		if sc.keySep {
+			for _, k := range keys {
+				argv = append(argv, "-k", k)
+			}
+		} else {
+			argv = append(argv, "--layout-keys", strings.Join(keys, ","))
+		}
+		if s.linkArg != "" {
+			argv = append(argv, "--link-dir", s.linkArg)
+		}
+		for _, p := range inter {
+			argv = append(argv, "-i", p)
+		}
+		if norm {
+			argv = append(argv, "--normalize-line-endings")
+		}
+		return argv
 	}
-	for _, p := range inter {
-		argv = append(argv, "-i", p)
-	}
-	if norm {
-		argv = append(argv, "--normalize-line-endings")
-	}
-	inv := w.cli(dirs["cli"], argv...)
-	lr := runChild("libverify", dirs["lib"], verifyArgs{Layout: layoutArg, Keys: keys, LinkDir: linkArg, Inter: inter, Norm: norm})
+	inv := w.cli(sides["cli"].cwd, mkArgv(sides["cli"])...)
+	ls := sides["lib"]
+	lr := runChild("libverify", ls.cwd, verifyArgs{Layout: ls.layoutArg, Keys: keys, LinkDir: ls.linkArg, Inter: inter, Norm: norm})
 	if w.verbose {
-		fmt.Printf("  library in %s: %s %s\n", w.rel(dirs["lib"]), libClass(lr), clip(w.rel(lr.Err), 300))
+		fmt.Printf("  library in %s: %s %s\n", w.rel(ls.cwd), libClass(lr), clip(w.rel(lr.Err), 300))
 	}
 	truth := sc.certain
+	if truth == "0" && sc.linkDirOverride == "" && !cfg.LinksInCwd && strings.ContainsAny(ld, "[*?\\") {
+		// the library itself reads the link directory argument as part of a glob pattern
+		// (documented reading): only CLI = library is demanded
+		truth = ""
+	}
 	if truth == "" {
 		truth = libClass(lr)
 	}
@@ -571,7 +610,7 @@ func (w *world) matchProductsCases(final string) {
 	k := w.stepKey(n-1, cfg.Steps[n-1].Keys[0])
 	link := filepath.Join(w.root, "links", expectedName(cfg.Steps[n-1].Name, k.keyID))
 	// the last step's products as recorded: f<n> (explicit) or f1..f<n> (directory mode); never CRLF
-	src := filepath.Join(w.root, "ws", filepath.FromSlash(w.prefix()))
+	src := filepath.Join(w.wsDir(), filepath.FromSlash(w.prefix()))
 	first := n
 	if cfg.DirMode {
 		first = 1
